@@ -18,6 +18,24 @@ NOT_APPLICABLE = {
 }
 
 CHECKS = {
+    "C09": {
+        "level_text": "Proof for all instance states and environments (flags, strong count, thread ids, recorded reasons, pattern counts): function contracts on the extracted lifecycle functions with panic sites as precondition-carrying stubs, plus lemmas. Partial: real threads, Arc counting and helper clones are trusted/abstracted.",
+        "design_ref": "DESIGN.md §4 C09",
+        "level_note": "Trusted: Verus/Z3, extraction rules (R1 panic stubs, Rcfg, R4, Rdrop, Rmutself logged), abstraction points (Arc::strong_count, thread id, panicking(), BTreeMap iteration as association list).",
+        "technique": "function contracts: Verus requires/ensures on extracted functions, panic sites as stubs with permitted-panic preconditions, lemmas",
+    },
+    "C11": {
+        "level_text": "Proof for all instance states: the guard order in teardown is an obligation (stub preconditions at the real call sites), lemma no_double_panic over the permitted-panic predicates. Partial: process abort behaviour, user Drop impls and lock poisoning are not expressible as function contracts here.",
+        "design_ref": "DESIGN.md §4 C11",
+        "level_note": "Trusted: as C09; std feature set only (the no_std `panicked` flag variant is not extracted).",
+        "technique": "function contracts: Verus stub preconditions at panic sites of the extracted teardown + lemma",
+    },
+    "C08": {
+        "level_text": "Proof for all states of the forwarding rule in teardown and of record-before-panic in induce_panic (ghost flag); bounded check that reading the recorded list does not clear it. Partial: which generated code paths reach induce_panic, threads and catch_unwind are outside.",
+        "design_ref": "DESIGN.md §4 C08",
+        "level_note": "Trusted: as C09; the push under the lock is abstracted as a ghost `record` operation.",
+        "technique": "function contracts with ghost state: Verus on extracted teardown / induce_panic / handle_error + bounded Kani harness",
+    },
     "C04": {
         "level_text": "Proof for the range assignment (all indices, counts, modes) and for the partition/history lemmas over the contracts (all clause lists, all histories); the lookup scan and the ordered arm of match_call_pattern are verified per list length up to a stated bound (bounded, reported separately).",
         "design_ref": "DESIGN.md §4 C04",
